@@ -74,6 +74,7 @@ static char *ru_setbuf(struct vf_rng *r, FILE *fp, int mode)
 struct ru_page { vbi_page *pg; char tag; void *ref; size_t ref_n; int ref_ok; char ref_err[200]; };
 
 static char ru_hist[700];
+static size_t ru_errlen;
 static int ru_nfail, ru_nafter;   /* per context: exports reported failed / exports compared right after one */
 static void ru_hist_add(const char *fmt, ...)
 {
@@ -132,10 +133,25 @@ static void ru_compare(const struct optvec *o, struct ru_page *rp, const char *t
 	*after_fail = 0;
 }
 
-/* a target that refused data (or could not be opened): the function must say so */
-static void ru_failed_target(const struct optvec *o, struct ru_page *rp, const char *tname, int lib_ok, int must_fail, int *after_fail)
+/* a target that refused data (or could not be opened): the function must say so,
+ * and vbi_export_errstr() must give a string (export.c: "remains valid until the
+ * next call of an export function"; every byte is read: ASan sees a stale one) */
+static void ru_failed_target(vbi_export *e, const struct optvec *o, struct ru_page *rp, const char *tname, int lib_ok, int must_fail, int *after_fail)
 {
 	char key[96];
+	if (!lib_ok) {
+		const char *es;
+		vf_phase("vbi_export_errstr");
+		es = vbi_export_errstr(e);
+		if (!es) {
+			snprintf(key, sizeof key, "model:C16:failed-export-without-error-string:%s", o->mod);
+			vf_fail(key, "options {%s} page %c: %s failed and vbi_export_errstr() returns NULL; history of the context: %s", o->cls, rp->tag, tname, ru_hist);
+		} else {
+			ru_errlen += strlen(es);
+			vf_count("error_strings_read", 1);
+			if (!strcmp(es, "Unknown error.")) { vf_count("error_strings_without_a_cause", 1); vf_log("  no specific error message after: %s\n", tname); }
+		}
+	}
 	if (lib_ok && must_fail) {
 		snprintf(key, sizeof key, "model:C16:failing-target-reports-success:%s", o->mod);
 		vf_fail(key, "options {%s} page %c (%zu bytes): %s returned success; history of the context: %s", o->cls, rp->tag, rp->ref_n, tname, ru_hist);
@@ -206,7 +222,9 @@ static char *ru_name(const char *fmt, ...)
 
 enum { RU_ALLOC, RU_MEM, RU_MEM_SMALL, RU_STDIO_MEM, RU_STDIO_SINK, RU_FILE,            /* can succeed */
        RU_SINK_FAIL, RU_FULL_STDIO, RU_FULL_FILE, RU_NODIR_FILE, RU_RDONLY_STDIO,       /* fail */
+       RU_ISDIR_FILE, RU_RODIR_FILE,
        RU_SETOPT };
+#define RU_LAST_FAILING RU_RODIR_FILE
 
 /* ---------------- one context, `steps` exports ---------------- */
 
@@ -234,10 +252,10 @@ static void reuse_module(struct vf_rng *r, const char *mod, struct ru_page *P, i
 			kind = (int)vf_below(r, 6);                     /* an export that can succeed */
 		else if (d < 45) kind = (int)vf_below(r, 6);
 		else if (d < 70) kind = RU_SINK_FAIL;
-		else if (d < 92) kind = RU_FULL_STDIO + (int)vf_below(r, 4);
+		else if (d < 92) kind = RU_FULL_STDIO + (int)vf_below(r, 6);
 		else kind = RU_SETOPT;
 		if (kind == RU_SINK_FAIL && !(rp->ref_ok && rp->ref_n > 0)) kind = RU_STDIO_SINK;
-		prev_failing = kind >= RU_SINK_FAIL && kind <= RU_RDONLY_STDIO;
+		prev_failing = kind >= RU_SINK_FAIL && kind <= RU_LAST_FAILING;
 
 		switch (kind) {
 		case RU_ALLOC: {
@@ -338,7 +356,7 @@ static void reuse_module(struct vf_rng *r, const char *mod, struct ru_page *P, i
 				   (glibc: "the data is in the buffer"), only ferror()/fclose() tell: the caller's
 				   business according to the documentation.  Everywhere else a refusal while the
 				   function ran is visible to the library. */
-				ru_failed_target(&o, rp, tname, ok, refused_in_call && bm != 3, &after_fail);
+				ru_failed_target(e, &o, rp, tname, ok, refused_in_call && bm != 3, &after_fail);
 				vf_sig("fail-stream mod=%s at=%s buf=%s during=%d", mod, k == 0 ? "0" : k + 1 == n ? "n-1" : k < 700 ? "head" : "body", ru_bufname[bm], refused_in_call);
 			}
 			free(sk.data);
@@ -358,18 +376,47 @@ static void reuse_module(struct vf_rng *r, const char *mod, struct ru_page *P, i
 			vf_count("exports_file", 1);
 			break; }
 		case RU_FULL_STDIO: case RU_RDONLY_STDIO: {
-			int nbf = kind == RU_RDONLY_STDIO ? (int)vf_below(r, 2) : 1, ok;
+			/* /dev/full: every write(2) fails with ENOSPC.  Unbuffered: the first fwrite() fails.  Fully
+			   buffered (own buffer of any size, or what stdio picks): the error appears when the buffer
+			   is flushed, during the export if the output is larger than the buffer - then the stream's
+			   error indicator (cleared by vbi_export_stdio when it starts) is set when the function
+			   returns - otherwise at fclose(), which is the caller's business. */
+			static const char *const fbn[4] = { "unbuffered", "fully buffered (small buffer)", "fully buffered (large buffer)", "with the buffering stdio chose" };
+			int bm = (int)vf_below(r, 4), ok, err_in_call, must;
 			FILE *fp = kind == RU_FULL_STDIO ? fopen("/dev/full", "wb") : fopen("/dev/null", "rb");
+			char *sb = NULL;
+			size_t bn = 0;
 			if (!fp) { vf_count("device_targets_unavailable", 1); break; }
-			if (nbf) setvbuf(fp, NULL, _IONBF, 0);
+			switch (bm) {
+			case 0: setvbuf(fp, NULL, _IONBF, 0); break;
+			case 1: bn = (size_t)vf_range(r, 1, 400); sb = malloc(bn); setvbuf(fp, sb, _IOFBF, bn); break;
+			case 2: bn = (size_t)vf_range(r, 1024, 70000); sb = malloc(bn); setvbuf(fp, sb, _IOFBF, bn); break;
+			default: break;
+			}
 			snprintf(phase, sizeof phase, "vbi_export_stdio:%s", mod); vf_phase(phase);
-			ru_hist_add("%s(%c)", kind == RU_FULL_STDIO ? "STDIO-DEV-FULL" : "STDIO-READ-ONLY", rp->tag);
+			ru_hist_add("%s(%c,%s)", kind == RU_FULL_STDIO ? "STDIO-DEV-FULL" : "STDIO-READ-ONLY", rp->tag, bm == 0 ? "nbf" : bm == 1 ? "fbf-small" : bm == 2 ? "fbf-large" : "default");
 			ok = vbi_export_stdio(e, fp, rp->pg);
+			err_in_call = ferror(fp);
 			fclose(fp);
-			snprintf(tname, sizeof tname, "vbi_export_stdio to %s", kind == RU_FULL_STDIO ? "an unbuffered stream on /dev/full" : "a stream opened for reading");
-			ru_failed_target(&o, rp, tname, ok, rp->ref_ok && rp->ref_n > 0, &after_fail);
-			vf_count(kind == RU_FULL_STDIO ? "exports_on_full_device" : "exports_on_read_only_stream", 1);
-			vf_sig("fail-dev mod=%s kind=%d", mod, kind);
+			free(sb);
+			snprintf(tname, sizeof tname, "vbi_export_stdio to %s, %s%s", kind == RU_FULL_STDIO ? "a stream on /dev/full" : "a stream opened for reading", fbn[bm],
+				 err_in_call ? ", error indicator of the stream set when the function returned" : "");
+			must = rp->ref_ok && rp->ref_n > 0 && (err_in_call || bm == 0 || kind == RU_RDONLY_STDIO);
+			/* an output larger than the stream buffer cannot have gone to /dev/full without an error */
+			if (kind == RU_FULL_STDIO && rp->ref_ok && (bm == 1 || bm == 2) && rp->ref_n > bn + 1 && !err_in_call) {
+				char key[96];
+				snprintf(key, sizeof key, "model:C16:targets-differ:%s", mod);
+				vf_fail(key, "options {%s} page %c (%zu bytes): %s with a %zu byte buffer: no write error although the output is larger than the buffer, not all data was written (return value %d); history: %s",
+					o.cls, rp->tag, rp->ref_n, tname, bn, ok, ru_hist);
+			}
+			ru_failed_target(e, &o, rp, tname, ok, must, &after_fail);
+			if (kind == RU_FULL_STDIO) {
+				vf_count("exports_on_full_device", 1);
+				vf_count(bm == 0 ? "exports_on_full_device_stdio_unbuffered" : "exports_on_full_device_stdio_buffered", 1);
+				if (bm && err_in_call) vf_count("exports_on_full_device_stdio_buffered_error_during_export", 1);
+			} else
+				vf_count("exports_on_read_only_stream", 1);
+			vf_sig("fail-dev mod=%s kind=%d buf=%d during=%d", mod, kind, bm, !!err_in_call);
 			break; }
 		case RU_FULL_FILE: case RU_NODIR_FILE: {
 			char *name = kind == RU_FULL_FILE ? ru_name("/dev/full") : ru_name("c16-%ld-no-such-dir/out.tmp", (long)getpid());
@@ -381,10 +428,40 @@ static void reuse_module(struct vf_rng *r, const char *mod, struct ru_page *P, i
 			ok = vbi_export_file(e, name, rp->pg);
 			exact_free((uint8_t *)name);
 			snprintf(tname, sizeof tname, "vbi_export_file to %s", kind == RU_FULL_FILE ? "/dev/full" : "a directory that does not exist");
-			ru_failed_target(&o, rp, tname, ok, kind == RU_NODIR_FILE || (rp->ref_ok && rp->ref_n > 0), &after_fail);
+			ru_failed_target(e, &o, rp, tname, ok, kind == RU_NODIR_FILE || (rp->ref_ok && rp->ref_n > 0), &after_fail);
 			if (kind == RU_FULL_FILE && (stat("/dev/full", &st) || !S_ISCHR(st.st_mode)))
 				vf_fail("model:C16:file-target-removed-a-device", "vbi_export_file(\"/dev/full\") failed and removed the device node");
 			vf_count(kind == RU_FULL_FILE ? "exports_on_full_device" : "exports_to_missing_directory", 1);
+			vf_sig("fail-dev mod=%s kind=%d", mod, kind);
+			break; }
+		case RU_ISDIR_FILE: case RU_RODIR_FILE: {
+			/* the name of a directory; a file in a directory the process may not write to */
+			char dname[64], *name;
+			struct stat st;
+			int ok, dropped = 0;
+			snprintf(dname, sizeof dname, "c16-%ld-%s", (long)getpid(), kind == RU_ISDIR_FILE ? "isdir" : "rodir");
+			if (mkdir(dname, kind == RU_ISDIR_FILE ? 0755 : 0555) && errno != EEXIST) { vf_count("device_targets_unavailable", 1); break; }
+			if (kind == RU_RODIR_FILE) {
+				chmod(dname, 0555);
+				/* root may write anywhere: give up the privilege for the time of the call, if that is possible */
+				if (geteuid() == 0) {
+					if (seteuid(65534)) { rmdir(dname); vf_count("exports_to_unwritable_directory_skipped_as_root", 1); break; }
+					dropped = 1;
+				}
+			}
+			name = kind == RU_ISDIR_FILE ? ru_name("%s", dname) : ru_name("%s/out.tmp", dname);
+			snprintf(phase, sizeof phase, "vbi_export_file:%s", mod); vf_phase(phase);
+			ru_hist_add("%s(%c)", kind == RU_ISDIR_FILE ? "FILE-IS-DIR" : "FILE-RO-DIR", rp->tag);
+			ok = vbi_export_file(e, name, rp->pg);
+			if (dropped && seteuid(0)) { fprintf(stderr, "c16: cannot regain privileges\n"); exit(2); }
+			exact_free((uint8_t *)name);
+			snprintf(tname, sizeof tname, "vbi_export_file to %s", kind == RU_ISDIR_FILE ? "a name that is a directory" : "a directory without write permission");
+			ru_failed_target(e, &o, rp, tname, ok, 1, &after_fail);
+			if (stat(dname, &st) || !S_ISDIR(st.st_mode))
+				vf_fail("model:C16:file-target-removed-a-directory", "%s failed and the directory is gone", tname);
+			if (kind == RU_RODIR_FILE) { char f[96]; chmod(dname, 0755); snprintf(f, sizeof f, "%s/out.tmp", dname); unlink(f); }
+			if (rmdir(dname)) unlink(dname);
+			vf_count(kind == RU_ISDIR_FILE ? "exports_to_directory_name" : "exports_to_unwritable_directory", 1);
 			vf_sig("fail-dev mod=%s kind=%d", mod, kind);
 			break; }
 		case RU_SETOPT: {
@@ -416,7 +493,7 @@ static void oracle_reuse(struct vf_rng *r, long steps)
 	P[0].pg = &pg_a; P[0].tag = 'A';
 	cor_dec = NULL;
 	cor_new_decoder();
-	ok = vf_chance(r, 3, 4) ? cor_gen_ttx(r) : cor_gen_cc(r);
+	ok = cor_gen_page(r);
 	if (ok) {
 		P[1].pg = &PG; P[1].tag = 'B'; np = 2;
 		vf_sample("second page for context reuse: %s -> %dx%d", PG_desc, PG.columns, PG.rows);
